@@ -130,10 +130,23 @@ namespace
         unsigned char pad[8];
         explicit Nest(uint64_t v);
     };
-    constexpr int NT = 15;
+    // 20 bytes, alignment 4: more than the two-word buffer although it is "two words and a bit"
+    struct B20 { uint32_t w[5]; };
+    // small, move ASSIGNMENT cannot throw but move CONSTRUCTION can: not for the in-place buffer (any's own moves are noexcept)
+    struct MC : Tracked<26, 1, false, true, 8>
+    {
+        using Base = Tracked<26, 1, false, true, 8>;
+        explicit MC(uint64_t v) : Base(v) {}
+        MC(const MC& o) : Base(static_cast<const Base&>(o)) {}
+        MC(MC&& o) noexcept(false) : Base(static_cast<Base&&>(o)) {}
+        MC& operator=(const MC&) = default;
+        MC& operator=(MC&& o) noexcept { id = o.id; return *this; }
+    };
+    static_assert(std::is_nothrow_move_assignable<MC>::value && !std::is_nothrow_move_constructible<MC>::value, "MC: nothrow move assignment, throwing move construction");
+    constexpr int NT = 17;
     const char* const tnames[NT] = {"int", "S1_inplace", "S2_inplace", "LG_heap", "TMV_heap", "AL_heap", "string_heap", "shared_ptr_inplace", "reflike_inplace", "NK_heap",
-                                    "reflike_heap", "node_heap", "twopart_heap", "int_pointer_inplace", "nest_heap"};
-    inline bool is_tracked_type(int k) { return (k >= 1 && k <= 5) || k == 9; }
+                                    "reflike_heap", "node_heap", "twopart_heap", "int_pointer_inplace", "nest_heap", "bytes20_heap", "MC_heap"};
+    inline bool is_tracked_type(int k) { return (k >= 1 && k <= 5) || k == 9 || k == 16; }
     static_assert(sizeof(RLH) > 2 * sizeof(void*) && sizeof(Node) > 2 * sizeof(void*) && sizeof(TwoPart) > 2 * sizeof(void*), "heap payloads must not fit the in-place buffer");
     inline int tag_of_type(int k) { return 10 + k; }
     static_assert(sizeof(RL) <= 2 * sizeof(void*) && std::is_nothrow_move_constructible<RL>::value, "RL must be stored in place");
@@ -169,6 +182,10 @@ namespace
     template <> struct TypeOf<14> { using type = Nest; static Nest make(uint64_t id) { return Nest(id); }
                                     static uint64_t id(const Nest& v) { const std::string* s = xtl::any_cast<std::string>(&v.next); return (s && sid(*s) == v.id + 1) ? v.id : 999997; }
                                     static void set(Nest& v, uint64_t id) { v.id = id; v.next = sstr(id + 1); } };
+    template <> struct TypeOf<15> { using type = B20; static B20 make(uint64_t id) { B20 b; set(b, id); return b; }
+                                    static uint64_t id(const B20& v) { uint64_t i = v.w[0] | (static_cast<uint64_t>(v.w[1]) << 32); return (v.w[2] == static_cast<uint32_t>(i * 3 + 1) && v.w[3] == static_cast<uint32_t>(~i) && v.w[4] == 0x5eedu) ? i : 999996; }
+                                    static void set(B20& v, uint64_t id) { v.w[0] = static_cast<uint32_t>(id); v.w[1] = static_cast<uint32_t>(id >> 32); v.w[2] = static_cast<uint32_t>(id * 3 + 1); v.w[3] = static_cast<uint32_t>(~id); v.w[4] = 0x5eedu; } };
+    template <> struct TypeOf<16> { using type = MC; static MC make(uint64_t id) { return MC(id); } static uint64_t id(const MC& v) { return v.id; } static void set(MC& v, uint64_t id) { v.id = id; } };
     template <> struct TypeOf<9> { using type = NK; static NK make(uint64_t id) { return NK(id); } static uint64_t id(const NK& v) { return v.id; } static void set(NK& v, uint64_t id) { v.id = id; } };
     template <> struct TypeOf<7> { using type = SP; static SP make(uint64_t id) { return std::make_shared<int>(static_cast<int>(id)); } static uint64_t id(const SP& v) { return v ? static_cast<uint64_t>(*v) : 0; } static void set(SP& v, uint64_t id) { v = std::make_shared<int>(static_cast<int>(id)); } };
 
@@ -190,7 +207,9 @@ namespace
         case 11: f(std::integral_constant<int, 11>()); break;
         case 12: f(std::integral_constant<int, 12>()); break;
         case 13: f(std::integral_constant<int, 13>()); break;
-        default: f(std::integral_constant<int, 14>()); break;
+        case 14: f(std::integral_constant<int, 14>()); break;
+        case 15: f(std::integral_constant<int, 15>()); break;
+        default: f(std::integral_constant<int, 16>()); break;
         }
     }
 
